@@ -7,6 +7,8 @@ CONSTANTS
   Takes <- TakesQuick
   Shapes <- ShapesQuick
   XKs <- XKsQuick
+  FeatVals <- FeatValsAll
+  MaxRowsL = 2
   Plan <- PlanAll
   SpellRule = "alt"
 INVARIANT CountOK
@@ -17,6 +19,7 @@ INVARIANT BestIsLabelR
 INVARIANT SameActions
 INVARIANT ContextIsRowWithoutLabel
 INVARIANT OracleTotal
+INVARIANT FeatureEqualsLabel
 INVARIANT EveryReadAlike
 INVARIANT SpellingIrrelevant
 INVARIANT Emit
